@@ -218,10 +218,11 @@ type Obj struct {
 	Elems  []AV
 	Val    AV
 	Site   string // allocation site comment
+	Opaque string // non-empty: contents unknown after being passed to an un-inlined callee; symbolic name
 }
 
 func (o *Obj) clone() *Obj {
-	n := &Obj{T: o.T, Kind: o.Kind, Val: o.Val, Site: o.Site}
+	n := &Obj{T: o.T, Kind: o.Kind, Val: o.Val, Site: o.Site, Opaque: o.Opaque}
 	if o.Fields != nil {
 		n.Fields = make(map[string]AV, len(o.Fields))
 		for k, v := range o.Fields {
@@ -404,6 +405,10 @@ type Interp struct {
 	Inline func(fn *ssa.Function) bool
 	// Watch: record loads of symbolic locations as events
 	WatchLoads bool
+	// OpaqueArgs: un-inlined callees that may mutate the heap objects passed to them
+	OpaqueArgs func(fn *ssa.Function) bool
+	// OpaqueType restricts which objects are forgotten (nil = all)
+	OpaqueType func(t types.Type) bool
 	// HavocKeep: symbolic locations an opaque call is assumed not to modify (frame condition)
 	HavocKeep func(key string) bool
 	MaxDepth   int // max inlining depth
@@ -767,6 +772,9 @@ func (in *Interp) load(st *State, addr AV, t types.Type, pos token.Pos) AV {
 			if o := st.heap[r.ID]; o != nil && o.Kind == 's' {
 				if v, ok := o.Fields[a.Field]; ok {
 					return v
+				}
+				if o.Opaque != "" {
+					return in.refined(st, Sym{Name: o.Opaque + "." + a.Field, T: t})
 				}
 				return Zero{t}
 			}
@@ -1459,6 +1467,9 @@ func (in *Interp) finishUnknown(st *State, ctx *CallCtx, ev Event, rts []types.T
 		}
 	}
 	ev.Stack = st.stackString()
+	if in.OpaqueArgs != nil && ctx.Fn != nil && in.OpaqueArgs(ctx.Fn) {
+		in.markOpaque(st, ctx.Args)
+	}
 	tag := fmt.Sprintf("ret:%s#%d", ev.Name(), len(st.Events))
 	ret := symResults(rts, tag)
 	if len(ret) == 1 {
@@ -1468,6 +1479,34 @@ func (in *Interp) finishUnknown(st *State, ctx *CallCtx, ev Event, rts []types.T
 	st.Events = append(st.Events, ev)
 	in.havoc(st)
 	k(st, ret, false)
+}
+
+// markOpaque forgets the contents of struct objects handed to an un-inlined callee.
+func (in *Interp) markOpaque(st *State, args []AV) {
+	for _, a := range args {
+		if d, ok := a.(Dyn); ok {
+			a = d.V
+		}
+		r, ok := a.(Ref)
+		if !ok {
+			continue
+		}
+		o := st.heap[r.ID]
+		if o == nil || o.Kind != 's' {
+			continue
+		}
+		if in.OpaqueType != nil && !in.OpaqueType(o.T) {
+			continue
+		}
+		if o.Opaque == "" {
+			name := "obj"
+			if nt, ok := o.T.(*types.Named); ok {
+				name = nt.Obj().Name()
+			}
+			o.Opaque = fmt.Sprintf("%s#%d", name, r.ID)
+		}
+		o.Fields = map[string]AV{}
+	}
 }
 
 // havoc: an unknown call may have modified symbolic memory.
@@ -1483,6 +1522,9 @@ func (in *Interp) havoc(st *State) {
 
 func (in *Interp) answers(st *State, ctx *CallCtx, ev Event, ans []Answer, k kont) {
 	ev.Stack = st.stackString()
+	if in.OpaqueArgs != nil && ctx.Fn != nil && in.OpaqueArgs(ctx.Fn) {
+		in.markOpaque(st, ctx.Args)
+	}
 	for ai, a := range ans {
 		s := st
 		if ai < len(ans)-1 {
